@@ -323,20 +323,25 @@ func isIntegerOrArithmeticOperation(node ast.Node) bool {
 	return false
 }
 
-func setTypeForIntegers(node ast.Node, t reflect.Type) {
+// setTypeForIntegers retypes the integer literals of an arithmetic argument;
+// it does not descend into operators that are overloaded (those are calls).
+func setTypeForIntegers(node ast.Node, t reflect.Type, overloaded func(ast.Node) bool) {
 	switch n := node.(type) {
 	case *ast.IntegerNode:
 		n.SetType(t)
 	case *ast.UnaryNode:
 		switch n.Operator {
 		case "+", "-":
-			setTypeForIntegers(n.Node, t)
+			setTypeForIntegers(n.Node, t, overloaded)
 		}
 	case *ast.BinaryNode:
+		if overloaded(n) {
+			return
+		}
 		switch n.Operator {
 		case "+", "/", "-", "*":
-			setTypeForIntegers(n.Left, t)
-			setTypeForIntegers(n.Right, t)
+			setTypeForIntegers(n.Left, t, overloaded)
+			setTypeForIntegers(n.Right, t, overloaded)
 		}
 	}
 }
@@ -344,7 +349,7 @@ func setTypeForIntegers(node ast.Node, t reflect.Type) {
 // overflowingLiteral finds an integer literal that setTypeForIntegers would
 // retype to t although t cannot hold its value (negated tells that the literal
 // stands under an odd number of unary minus signs).
-func overflowingLiteral(node ast.Node, t reflect.Type, negated bool) (*ast.IntegerNode, bool) {
+func overflowingLiteral(node ast.Node, t reflect.Type, negated bool, overloaded func(ast.Node) bool) (*ast.IntegerNode, bool) {
 	switch n := node.(type) {
 	case *ast.IntegerNode:
 		value := int64(n.Value)
@@ -365,17 +370,20 @@ func overflowingLiteral(node ast.Node, t reflect.Type, negated bool) (*ast.Integ
 			// ends in the literal itself: - -1 is 1.
 			switch n.Node.(type) {
 			case *ast.IntegerNode, *ast.UnaryNode:
-				return overflowingLiteral(n.Node, t, negated != (n.Operator == "-"))
+				return overflowingLiteral(n.Node, t, negated != (n.Operator == "-"), overloaded)
 			}
-			return overflowingLiteral(n.Node, t, false)
+			return overflowingLiteral(n.Node, t, false, overloaded)
 		}
 	case *ast.BinaryNode:
+		if overloaded(n) {
+			return nil, false
+		}
 		switch n.Operator {
 		case "+", "/", "-", "*":
-			if lit, ok := overflowingLiteral(n.Left, t, false); ok {
+			if lit, ok := overflowingLiteral(n.Left, t, false, overloaded); ok {
 				return lit, true
 			}
-			return overflowingLiteral(n.Right, t, false)
+			return overflowingLiteral(n.Right, t, false, overloaded)
 		}
 	}
 	return nil, false
